@@ -351,12 +351,15 @@ func tripCount(l *ssau.Loop) (gpoly, bool) {
 			continue
 		}
 		cmp, ok := ifi.Cond.(*ssa.BinOp)
-		if !ok || cmp.Op != token.LSS {
+		if !ok || (cmp.Op != token.LSS && cmp.Op != token.LEQ) {
 			continue
 		}
 		phi, off := counterOf(cmp.X, l)
 		if phi == nil {
 			continue
+		}
+		if cmp.Op == token.LEQ {
+			off-- // i <= B runs one more time than i < B
 		}
 		start, step := int64(0), false
 		okStart := false
